@@ -8,8 +8,10 @@ package jmespath
 
 import (
 	"encoding/hex"
+	"errors"
 	"math"
 	"reflect"
+	"runtime"
 	"sort"
 	"strconv"
 	"strings"
@@ -144,4 +146,104 @@ func verifDump(sb *strings.Builder, node ASTNode) {
 		verifDump(sb, c)
 	}
 	sb.WriteString(")")
+}
+
+// VerifFunctionTable describes the built-in function table of a fresh interpreter as it is at
+// run time, one line per function, sorted by name:
+//
+//	name|handler|hasExpRef|types,types;types…   (a parameter with a trailing '+' is variadic)
+//
+// It is read by reflection, by shape and not by field name: the table is the only
+// map[string]struct field of the function caller; in an entry, the slice of structs is the
+// parameter list (each with one slice of string-kinded types and one bool), the func is the
+// handler (named by the runtime) and the only bool, when there is one, says whether the function
+// takes an expression reference ("?" when no such field exists).
+func VerifFunctionTable() (string, error) {
+	v := reflect.ValueOf(newFunctionCaller())
+	for v.Kind() == reflect.Ptr {
+		v = v.Elem()
+	}
+	if v.Kind() != reflect.Struct {
+		return "", errors.New("the function caller is not a struct")
+	}
+	var table reflect.Value
+	for i := 0; i < v.NumField(); i++ {
+		f := v.Field(i)
+		if f.Kind() == reflect.Map && f.Type().Key().Kind() == reflect.String && f.Type().Elem().Kind() == reflect.Struct {
+			if table.IsValid() {
+				return "", errors.New("two map[string]struct fields in the function caller")
+			}
+			table = f
+		}
+	}
+	if !table.IsValid() {
+		return "", errors.New("no map[string]struct field in the function caller")
+	}
+	var lines []string
+	for _, k := range table.MapKeys() {
+		e := table.MapIndex(k)
+		var params, handler, flag reflect.Value
+		bools := 0
+		for i := 0; i < e.NumField(); i++ {
+			f := e.Field(i)
+			switch {
+			case f.Kind() == reflect.Slice && f.Type().Elem().Kind() == reflect.Struct:
+				if params.IsValid() {
+					return "", errors.New("two parameter lists in a function entry")
+				}
+				params = f
+			case f.Kind() == reflect.Func:
+				if handler.IsValid() {
+					return "", errors.New("two funcs in a function entry")
+				}
+				handler = f
+			case f.Kind() == reflect.Bool:
+				bools++
+				flag = f
+			}
+		}
+		if !handler.IsValid() || handler.IsNil() {
+			return "", errors.New("function entry without a handler: " + k.String())
+		}
+		name := runtime.FuncForPC(handler.Pointer()).Name()
+		if i := strings.LastIndex(name, "."); i >= 0 {
+			name = name[i+1:]
+		}
+		ref := "?"
+		if bools == 1 {
+			ref = strconv.FormatBool(flag.Bool())
+		} else if bools > 1 {
+			return "", errors.New("several bool fields in a function entry")
+		}
+		var ps []string
+		if params.IsValid() {
+			for j := 0; j < params.Len(); j++ {
+				p := params.Index(j)
+				var types, variadic reflect.Value
+				for i := 0; i < p.NumField(); i++ {
+					f := p.Field(i)
+					if f.Kind() == reflect.Slice && f.Type().Elem().Kind() == reflect.String {
+						types = f
+					} else if f.Kind() == reflect.Bool {
+						variadic = f
+					}
+				}
+				if !types.IsValid() {
+					return "", errors.New("parameter without a type list: " + k.String())
+				}
+				var ts []string
+				for i := 0; i < types.Len(); i++ {
+					ts = append(ts, types.Index(i).String())
+				}
+				s := strings.Join(ts, ",")
+				if variadic.IsValid() && variadic.Bool() {
+					s += "+"
+				}
+				ps = append(ps, s)
+			}
+		}
+		lines = append(lines, k.String()+"|"+name+"|"+ref+"|"+strings.Join(ps, ";"))
+	}
+	sort.Strings(lines)
+	return strings.Join(lines, "\n"), nil
 }
